@@ -1,6 +1,6 @@
 (** Dispatch table used by the extracted runner: property number -> model runner / monitor. *)
 From RRE Require Import Base.Sx.
-From RRE Require Model.Watermark Model.Tms Model.ProofGraph Model.Undo Model.Module Model.Window Model.Join.
+From RRE Require Model.Watermark Model.Tms Model.ProofGraph Model.Undo Model.Module Model.Window Model.Join Model.KB.
 Open Scope Z_scope.
 
 Definition run_by_id (id : Z) (c : sx) : sx :=
@@ -10,6 +10,7 @@ Definition run_by_id (id : Z) (c : sx) : sx :=
   | 12 => Window.run_sx c
   | 13 => Watermark.run_sx c
   | 14 => Join.run_sx c
+  | 15 => KB.run_sx c
   | 17 => ProofGraph.run_sx c
   | 18 => Module.run_sx c
   | _ => sx_bad
@@ -26,6 +27,7 @@ Definition ok_by_id (id : Z) (c o : sx) : Z :=
   | 12 => b2z (Window.ok_sx c o)
   | 13 => b2z (Watermark.ok_sx c o)
   | 14 => b2z (Join.ok_sx c o)
+  | 15 => b2z (KB.ok_sx c o)
   | 17 => b2z (ProofGraph.ok_sx c o)
   | 18 => Module.ok_sx c o
   | _ => 0
